@@ -263,10 +263,18 @@ class CFG:
             for i, e in enumerate(B.el):
                 self.pos.setdefault(e, (B.id, i))
         self._dom = None
+        # pure jumps (goto / break / continue) are block terminators, not elements: their position is
+        # "after the last element of the block they end"
+        self.jumppos = {}
+        for B in self.blocks.values():
+            if B.term is not None:
+                self.jumppos[B.term] = (B.id, len(B.el))
 
     def position(self, node):
         """CFG position of an AST node: the node itself or its nearest ancestor/descendant element."""
         n = node
+        if n is not None and n.k in ("GotoStmt", "BreakStmt", "ContinueStmt") and n.id in self.jumppos:
+            return self.jumppos[n.id]
         while n is not None:
             if n.id in self.pos:
                 return self.pos[n.id]
